@@ -14,3 +14,4 @@ from . import fs  # noqa
 from . import cli  # noqa
 from . import txser  # noqa
 from . import bip39  # noqa
+from . import bip32  # noqa
